@@ -573,7 +573,7 @@ def check_tmal(case, M):
         (resp. with a blank between an operator and a quote); the model maps all three texts to
         the same outcome."""
         t2 = re.sub(r"([(\[])\s+", r"\1", text.strip())
-        t3 = re.sub(r"(?<=[^\s])'", " '", t2)
+        t3 = re.sub(r"(?<=[^\s(\[])'", " '", t2)
         for t, fid in ((t2, "C15-F1"), (t3, "C15-F2")):
             if t == text:
                 continue
